@@ -493,6 +493,10 @@ func encodeTransactionResponseBasedOnWantedEncoding(
 						numTakeWritable := len(addr.WritableIndexes)
 						numTakeReadonly := len(addr.ReadonlyIndexes)
 						tableKey := addr.AccountKey
+						if numTakeWritable > len(writable) || numTakeReadonly > len(readonly) {
+							// the message and the metadata are independent archived records
+							return nil, nil, fmt.Errorf("the transaction metadata lists fewer loaded addresses than the address table lookups of the message reference")
+						}
 						{
 							// now need to rebuild the address table taking into account the indexes, and put the keys into the tables
 							maxIndex := 0
